@@ -108,6 +108,7 @@ ItemAgrees(x, o) ==
 RECURSIVE MentionedIn(_, _)
 MentionedIn(t, rootname) ==
   CASE t.k = "path" -> (IF ~t.lead /\ Len(t.segs) >= 2 /\ t.segs[1] = rootname THEN {t.segs} ELSE {}) \cup UNION {MentionedIn(t.args[i], rootname) : i \in DOMAIN t.args}
+    [] t.k = "qpath" -> UNION {UNION {MentionedIn(t.segargs[sg][i], rootname) : i \in DOMAIN t.segargs[sg]} : sg \in DOMAIN t.segargs}
     [] t.k = "tup"  -> UNION {MentionedIn(t.elems[i], rootname) : i \in DOMAIN t.elems}
     [] t.k = "arr"  -> MentionedIn(t.of, rootname)
     [] OTHER -> {}
@@ -121,14 +122,22 @@ ClosureM(Root_, frontier, seen) ==
 MustRoots(S, Root_, path) == {r \in RecRoots(S) : LET rp == <<Root_.name>> \o RootSegs(S, r) IN <<Root_.name>> \o path \in ClosureM(Root_, {rp}, {rp}) /\ FindItem(Root_, rp).kind # "none"}
 MayRoots(reg, S, path) == {r \in RecRoots(S) : \E ir \in {i \in Ids(reg) : Len(Ty(reg, i).path) > 0 /\ PathStr(Ty(reg, i).path) = r} :
                                                  \E ip \in IdsOfPath(reg, path) : ip \in Reach(reg, ir)}
-CompactAsMust(S, it) == S.has_compact_as /\ it.kind = "struct" /\ Len(RealFields(it.fields)) = 1
-                        /\ RealFields(it.fields)[1].ty \in {PrimTree(S, p) : p \in UnsignedPrims} /\ ~RealFields(it.fields)[1].compact
+\* must: the registry says so - the struct's single field is (a Box / Cow of) an unsigned integer primitive, not a Compact<..> type
+CompactAsMust(reg, S, path, it) ==
+  /\ S.has_compact_as /\ it.kind = "struct" /\ Len(RealFields(it.fields)) = 1
+  \* the generated field is the integer itself (a generic newtype's field is a parameter, not an integer)
+  /\ Unbox(S, RealFields(it.fields)[1].ty) \in {PrimTree(S, p) : p \in UnsignedPrims}
+  /\ \A id \in IdsOfPath(reg, path) :
+        LET e == Ty(reg, id) IN
+        e.def.k = "comp" /\ Len(e.def.fields) = 1
+        /\ LET fid == UnCow(reg, e.def.fields[1].ty) IN HasId(reg, fid) /\ Ty(reg, fid).def.k = "prim" /\ Ty(reg, fid).def.p \in UnsignedPrims
+  /\ IdsOfPath(reg, path) # {}
 CompactAsMay(S, it) == S.has_compact_as /\ it.kind = "struct" /\ Len(RealFields(it.fields)) = 1
                        /\ Unbox(S, RealFields(it.fields)[1].ty) \in {PrimTree(S, p) : p \in UnsignedPrims}
 C08_ItemOK(reg, S, Root_, path, derives, attrs, it) ==
   LET ps == PathStr(path)
       mustD == GlobalDerives(S) \cup SpecificDerives(S, ps) \cup UNION {RecDerives(S, r) : r \in MustRoots(S, Root_, path)}
-               \cup (IF CompactAsMust(S, it) THEN {CompactAsStr(S)} ELSE {})
+               \cup (IF CompactAsMust(reg, S, path, it) THEN {CompactAsStr(S)} ELSE {})
       mayD == GlobalDerives(S) \cup SpecificDerives(S, ps) \cup UNION {RecDerives(S, r) : r \in MayRoots(reg, S, path)}
               \cup (IF CompactAsMay(S, it) THEN {CompactAsStr(S)} ELSE {})
       mustA == GlobalAttrs(S) \cup SpecificAttrs(S, ps) \cup UNION {RecAttrs(S, r) : r \in MustRoots(S, Root_, path)}
